@@ -389,7 +389,8 @@ func c09Cycle(c *Ctx) {
 	}
 	c.seen(fnName(ng))
 	// instructions of NewGraph after which the edge map may have entries
-	writesEdges := func(fn *ssa.Function) bool {
+	var writesEdgesD func(fn *ssa.Function, d int) bool
+	writesEdgesD = func(fn *ssa.Function, d int) bool {
 		for _, f2 := range withClosures(fn) {
 			for _, b := range f2.Blocks {
 				for _, in := range b.Instrs {
@@ -400,11 +401,20 @@ func c09Cycle(c *Ctx) {
 							}
 						}
 					}
+					// through a helper that records the edge
+					if call, ok := in.(*ssa.Call); ok && d < 2 {
+						if cal := call.Common().StaticCallee(); cal != nil && fnPkgPath(cal) == genPkg && cal != ng && cal != fn && len(cal.Blocks) > 0 && cal.Name() != ng.Name() {
+							if writesEdgesD(cal, d+1) {
+								return true
+							}
+						}
+					}
 				}
 			}
 		}
 		return false
 	}
+	writesEdges := func(fn *ssa.Function) bool { return writesEdgesD(fn, 0) }
 	var edgeInstrs []ssa.Instruction
 	for _, b := range ng.Blocks {
 		for _, in := range b.Instrs {
@@ -420,6 +430,10 @@ func c09Cycle(c *Ctx) {
 					if mc, ok := resolve(a).(*ssa.MakeClosure); ok && writesEdges(mc.Fn.(*ssa.Function)) {
 						edgeInstrs = append(edgeInstrs, in)
 					}
+				}
+				// a helper that records the edge (g.addEdge(...))
+				if cal := x.Common().StaticCallee(); cal != nil && fnPkgPath(cal) == genPkg && cal != ng && len(cal.Blocks) > 0 && writesEdges(cal) {
+					edgeInstrs = append(edgeInstrs, in)
 				}
 			}
 		}
